@@ -242,7 +242,7 @@ Definition lex_ok (l : lexeme) : bool :=
       scalar cl && (normalize_quote cl =? 34) && forallb qitem_ok items
   | LBId items => forallb bitem_ok items
   | LDollar tag body =>
-      (match tag with [] => true | _ => word_shape tag end) && no_early_close (dollar_tag tag) body
+      (match tag with [] => true | t0 :: _ => word_shape tag && is_ident_part t0 end) && no_early_close (dollar_tag tag) body
   end.
 
 (* ---- adjacency: the text r that follows the lexeme cannot extend it, and the lexeme with what follows does not
